@@ -19,8 +19,8 @@ vars == <<s, done>>
 L(str) == str
 PathLex == << "$", "@", ".", "..", "[", "]", "(", ")", "?", "*", ",", ":", "'a'", "\"b\"", "'", "\"", "a", "1", "-1", "01", "1e2", "1.5", "1e-1",
               "9007199254740993", "-", "+", "==", "!=", "<", "<>", "&&", "||", "!", " in ", " contains ", "=~", "/a/", "/(/", "/a", "/a/i", "true", "null",
-              "length(", "count(", "match(", "value(", "nosuch(", "#", "_", "~", "^", " | ", " & ", "undefined", " ", "\\", "'\\u00e9'", "'\\ud800'", "EACUTE", "0", "and", "not ",
-              "1e400", "1.0e16", "1.5e1", "/a{99999999999999999999}/", "'a{99999999999999999999}'", "aaaaaaaaaaaaaaaaaaaaaaaaaaaaaaaaaaaaaaaa", "HUGE", "SQRUN", "DQRUN", "RERUN", "/(?u)a/a", "'(?a)(?u)a'", "-1.0e309", "1.0e-400", "<=", ">=" >>
+              "length(", "count(", "match(", "search(", "value(", "nosuch(", "#", "_", "~", "^", " | ", " & ", "undefined", " ", "\\", "'\\u00e9'", "'\\ud800'", "EACUTE", "0", "and", "not ",
+              "1e400", "1.0e16", "1.5e1", "/a{99999999999999999999}/", "'a{99999999999999999999}'", "aaaaaaaaaaaaaaaaaaaaaaaaaaaaaaaaaaaaaaaa", "HUGE", "SQRUN", "DQRUN", "RERUN", "/(?u)a/a", "'(?a)(?u)a'", "-1.0e309", "1.0e-400", "<=", ">=", "1e23", "9007199254740993e0" >>
 PtrLex == << "/", "~", "0", "1", "a", "-", "#", "\\u0041", "\\", "\\ud800", " ", "EACUTE", "%41", "~0", "~1", "~2", "-1", "01", "9007199254740993", "\\x", "SUPER2", "HUGE" >>
 RelLex == << "0", "1", "2", "10", "+", "-", "#", "/", "a", "~", "01", " ", "\\", "+0", "EACUTE", "HUGE", "LIMIT4300" >>
 Lex == CASE Lang = "path" -> PathLex [] Lang = "pointer" -> PtrLex [] Lang = "relptr" -> RelLex [] OTHER -> <<>>
@@ -48,7 +48,8 @@ Bases ==
                           <<"$", "[", "?", "(", "@", ".", "a", "==", "1", ")", "==", "true", "]">>, <<"$", "[", "?", "@", ".", "a", "<", "(", "1.5e1", "<", "1.0e16", ")", "]">>,
                           <<"$", "[", "?", "!", "(", "@", ".", "a", "||", "@", ".", "b", ")", "&&", "@", ".", "a", "!=", "1.0e16", "]">>,
                           <<"$", "[", "?", "count(", "length(", "@", ".", "a", ")", ")", "==", "1", "]">>, <<"$", "..", "[", "-1", "]">>,
-                          <<"$", "[", "?", "value(", "count(", "@", ".", "*", ")", ")", "==", "1", "]">> }
+                          <<"$", "[", "?", "value(", "count(", "@", ".", "*", ")", ")", "==", "1", "]">>,
+                          <<"$", "..", "[", "?", "search(", "@", ",", "'a'", ")", "]">>, <<"$", "[", "?", "@", ".", "a", "==", "1e23", "]">> }
     [] Lang = "pointer" -> { <<"/", "a", "/", "0">>, <<"/", "~0", "/", "~1">>, <<>>, <<"/", "-">>, <<"/", "EACUTE", "/", "\\u0041">> }
     [] Lang = "relptr" -> { <<"0">>, <<"1", "/", "a">>, <<"0", "+", "1">>, <<"2", "#">>, <<"0", "-", "10", "/", "a">> }
     [] OTHER -> {}
@@ -58,7 +59,11 @@ Mutants(b) == {[b EXCEPT ![i] = x] : i \in 1..Len(b), x \in LexSet}
               \cup {SubSeq(b, 1, i - 1) \o SubSeq(b, i + 1, Len(b)) : i \in 1..Len(b)}
 Soups == UNION {[1..n -> LexSet] : n \in 0..MaxLen}
 
-Init == /\ s \in (IF Lang = "patch" THEN (IF MaxLen = 1 THEN {<<o>> : o \in PatchOps} ELSE {<<o1, o2>> : o1 \in PatchOpsSmall, o2 \in PatchOpsSmall})
+\* an element of the operation list that is not an object at all (the recorder puts the decoded value in its place)
+NotAnOp(code) == [op |-> code, path |-> "elem", from |-> "elem", value |-> "elem"]
+Init == /\ s \in (IF Lang = "patch" THEN (IF MaxLen = 1 THEN {<<o>> : o \in PatchOps} \cup {<<NotAnOp(c)>> : c \in {"n:1", "null", "s:add", "l:"}}
+                                          ELSE {<<o1, o2>> : o1 \in PatchOpsSmall, o2 \in PatchOpsSmall}
+                                               \cup {<<o1, NotAnOp(c)>> : o1 \in PatchOpsSmall, c \in {"n:1", "null", "s:add", "l:"}})
                    ELSE IF Mode = "soup" THEN Soups ELSE UNION {Mutants(b) : b \in Bases} \cup Bases)
         /\ done = FALSE
 Next == ~done /\ done' = TRUE /\ UNCHANGED s
